@@ -26,6 +26,10 @@ package prefix
 
 //@ func addPrefix
 //@   requires resp != nil
+// C08 (lifetimes): every lease put into a reply runs at least a full lease duration from the
+// latest clock reading, so the lifetimes computed from it are positive (as long as the handler
+// takes less than that to get here) - in particular a renewed lease is sent as renewed
+//@   requires[C08,C09:lease-sent-runs-a-full-lease-duration] covers_lease(l.Expire, leaseDuration)
 //@   modifies resp.Options
 //@   ensures len(resp.Options.Options) == old(len(resp.Options.Options)) + 1 && resp.IaId == old(resp.IaId)
 
